@@ -416,13 +416,27 @@ static int writer_finish_section(struct reftable_writer *w)
 			strbuf_release(&idx[i].last_key);
 		}
 		reftable_free(idx);
-	}
 
-	writer_clear_index(w);
+		/* Flush the last block of this level, so that the next level
+		 * (or the reader, through the footer) covers it too. */
+		err = writer_flush_block(w);
+		if (err < 0)
+			return err;
+		if (w->index_len >= idx_len) {
+			/* Keys so long that an index block holds a single
+			 * entry: further levels would never get smaller.
+			 * Readers scan a multi-block top level linearly. */
+			break;
+		}
+	}
 
 	err = writer_flush_block(w);
 	if (err < 0)
 		return err;
+
+	/* The entries left over describe the top-level index blocks; they
+	 * must not leak into the next section. */
+	writer_clear_index(w);
 
 	bstats = writer_reftable_block_stats(w, typ);
 	bstats->index_blocks = w->stats.idx_stats.blocks - before_blocks;
